@@ -1448,7 +1448,7 @@ pub fn decoder_text(g: &mut Gen<'_>) -> (&'static str, String) {
 /// Documents in which ONE kind of thing is counted past 2^16 (and, with a larger `n`, past
 /// 2^18): distinct anchors, aliases to them in reverse order, documents, keys, tagged nodes,
 /// sequence entries of a nested sequence, flow entries.
-pub const COUNT_KINDS: [&str; 8] = ["anchors", "anchors+aliases", "documents", "keys", "tags", "nested-entries", "flow-entries", "anchored-documents"];
+pub const COUNT_KINDS: [&str; 9] = ["anchors", "anchors+aliases", "documents", "keys", "tags", "nested-entries", "flow-entries", "anchored-documents", "entries-across-documents"];
 pub fn count_doc(kind: &str, n: usize) -> String {
     let mut s = String::with_capacity(n * 14 + 64);
     match kind {
@@ -1488,6 +1488,15 @@ pub fn count_doc(kind: &str, n: usize) -> String {
                 s.push_str(&format!("- !e!t{i} v\n"));
             }
         }
+        "entries-across-documents" => {
+            // every document stays below the count, the stream passes it
+            for d in 0..3 {
+                s.push_str(&format!("--- &d{d}\n"));
+                for _ in 0..n * 2 / 5 {
+                    s.push_str("- x\n");
+                }
+            }
+        }
         "nested-entries" => {
             s.push_str("a:\n  b:\n");
             for _ in 0..n {
@@ -1508,8 +1517,8 @@ pub fn count_doc(kind: &str, n: usize) -> String {
 /// Every split of a core-schema tag URI between a %TAG prefix and the tag suffix (also the
 /// verbatim and the `!!` spelling), on every kind of node text: the loaders decide by tag how a
 /// scalar is resolved, whatever spelling delivered the tag.
-pub const SPLIT_TYPES: [&str; 11] = ["int", "float", "bool", "null", "str", "map", "seq", "binary", "in", "intx", ""];
-pub const SPLIT_VALUES: [&str; 7] = ["12", "~", "\"12\"", "'x'", "|\n  12", "[1]", "0x1F"];
+pub const SPLIT_TYPES: [&str; 18] = ["int", "float", "bool", "null", "str", "map", "seq", "binary", "in", "intx", "", "timestamp", "merge", "set", "omap", "pairs", "value", "yaml"];
+pub const SPLIT_VALUES: [&str; 11] = ["12", "~", "\"12\"", "'x'", "|\n  12", "[1]", "0x1F", "\u{e9}", "a\u{4e2d}b=", "\u{1F600}", "QUJD"];
 const CORE: &str = "tag:yaml.org,2002:";
 pub fn tag_split_count() -> u64 {
     SPLIT_TYPES.iter().map(|t| (CORE.len() + t.len() + 1 + 2) as u64).sum::<u64>() * SPLIT_VALUES.len() as u64
